@@ -144,7 +144,7 @@ def cbmc_cmd(h, b, witness):
     if witness:
         cmd += ['-DVF_WITNESS', '--no-standard-checks', '--no-built-in-assertions']
     else:
-        cmd += ['--trace', '--pointer-overflow-check', '--undefined-shift-check', '--conversion-check'] if h.get('full_checks') else ['--trace']
+        cmd += ['--trace']
         if h.get('no_pointer_checks'):
             cmd += ['--no-pointer-check', '--no-bounds-check', '--no-div-by-zero-check', '--no-signed-overflow-check', '--no-undefined-shift-check', '--no-pointer-primitive-check']
     for extra in h.get('cbmc_flags', []):
@@ -292,6 +292,7 @@ def run_harness(h, tier, rootdir, keep):
     res['properties_checked'] = nprops
     res['user_asserts_proved'] = sum(1 for r_ in m['results'] if '.assertion.' in r_['property'] and r_['status'] == 'SUCCESS'
                                      and not r_.get('description', '').startswith(('MODEL-', 'WITNESS')) and not r_['property'].startswith('vf_'))
+    if viol: incon = [(p, d) for p, d in incon if 'status=UNKNOWN' not in d]
     for p, d in incon: res['inconclusive'].append('%s: %s' % (p, d))
     for v in viol:
         vals = nondet_log_from_trace(v.get('trace', []))
